@@ -29,6 +29,8 @@ type Gen struct {
 	ArgClash bool
 	// ObjFail: failing expressions may have object-literal operands
 	ObjFail bool
+	// AllFuncs: expressions range over the whole built-in function table
+	AllFuncs bool
 	// NoBig suppresses the occasional > 4 KiB text chunk (C18 truncates files at every prefix)
 	NoBig bool
 }
@@ -94,6 +96,10 @@ func (g *Gen) GenData() *Val {
 		add(fmt.Sprintf("o%d", i), "obj", o, keys)
 	}
 	add("x0", "nil", VNil(), nil)
+	if r.Chance(30) {
+		// a Go map whose keys are not strings
+		add("m0", "obj", Val{T: "intmap", K: []string{"1", "2", "3"}, V: []Val{VStr("one"), VStr("two"), VStr("three")}}, nil)
+	}
 	if g.ArgClash {
 		// variables named like the components' arguments, of another type: binding such an argument
 		// clashes with the enclosing scope
@@ -210,6 +216,23 @@ func (g *Gen) Expr(typ string, depth int) string {
 			}
 			return fmt.Sprintf("(%s - %s)", g.Expr("int", depth-1), g.Expr("int", depth-1))
 		default:
+			if g.AllFuncs && r.Chance(60) {
+				// the rest of the built-in table (every function that yields an integer)
+				switch r.Intn(6) {
+				case 0:
+					return fmt.Sprintf("%s.abs()", g.Expr("int", depth-1))
+				case 1:
+					return fmt.Sprintf("%s.len()", g.Expr("int", depth-1))
+				case 2:
+					return fmt.Sprintf("%s.binary()", g.Expr("bool", depth-1))
+				case 3:
+					return fmt.Sprintf("%s.int()", g.Expr("float", depth-1))
+				case 4:
+					return fmt.Sprintf("%s.then(%s, %s)", g.Expr("bool", depth-1), g.Expr("int", depth-1), g.Expr("int", depth-1))
+				default:
+					return fmt.Sprintf("(%s %% %d)", g.Expr("int", depth-1), r.Range(1, 7))
+				}
+			}
 			return fmt.Sprintf("(%s ? %s : %s)", g.Expr("bool", depth-1), g.Expr("int", depth-1), g.Expr("int", depth-1))
 		}
 	case "str":
@@ -233,6 +256,46 @@ func (g *Gen) Expr(typ string, depth int) string {
 			}
 			return fmt.Sprintf("%s.trim()", g.Expr("str", depth-1))
 		default:
+			if g.AllFuncs && r.Chance(70) {
+				// the rest of the built-in table (every function that yields a string or nil)
+				e := g.Expr("str", depth-1)
+				switch r.Intn(17) {
+				case 0:
+					return e + ".lower()"
+				case 1:
+					return e + ".capitalize()"
+				case 2:
+					return e + ".reverse()"
+				case 3:
+					return fmt.Sprintf("%s.truncate(%d)", e, r.Range(0, 9))
+				case 4:
+					return fmt.Sprintf("%s.truncate(%d, %s)", e, r.Range(0, 9), g.lit(Pick(r, []string{"~", "", ".."})))
+				case 5:
+					return fmt.Sprintf("%s.at(%d)", e, r.Range(-3, 6))
+				case 6:
+					return e + ".first()"
+				case 7:
+					return e + ".last()"
+				case 8:
+					return fmt.Sprintf("%s.repeat(%d)", e, r.Range(0, 3))
+				case 9:
+					return fmt.Sprintf("%s.trimLeft(%s)", e, g.lit(Pick(r, []string{" ", "a", "Z "})))
+				case 10:
+					return fmt.Sprintf("%s.trimRight(%s)", e, g.lit(Pick(r, []string{" ", "a", "d "})))
+				case 11:
+					return fmt.Sprintf("%s.trim(%s)", e, g.lit(Pick(r, []string{" ", "ab", "x"})))
+				case 12:
+					return fmt.Sprintf("%s.decimal()", g.Expr("int", depth-1))
+				case 13:
+					return fmt.Sprintf("%s.decimal(%s, %d)", g.Expr("int", depth-1), g.lit(Pick(r, []string{",", "."})), r.Range(0, 4))
+				case 14:
+					return fmt.Sprintf("%s.str()", g.Expr("float", depth-1))
+				case 15:
+					return fmt.Sprintf("%s.str().decimal()", g.Expr("int", depth-1))
+				default:
+					return e + ".raw()"
+				}
+			}
 			return fmt.Sprintf("(%s ? %s : %s)", g.Expr("bool", depth-1), g.Expr("str", depth-1), g.Expr("str", depth-1))
 		}
 	case "bool":
@@ -251,11 +314,40 @@ func (g *Gen) Expr(typ string, depth int) string {
 			if fs := g.Funcs["bool"]; len(fs) > 0 {
 				return fmt.Sprintf("%s.%s()", g.Expr("bool", 0), Pick(r, fs))
 			}
+			if g.AllFuncs && r.Chance(50) {
+				switch r.Intn(4) {
+				case 0:
+					return fmt.Sprintf("%s.contains(%s)", g.Expr("str", depth-1), g.lit(Pick(r, []string{"a", "", "é", "Z"})))
+				case 1:
+					return fmt.Sprintf("%s.contains(%s)", g.Expr("arr_str", depth-1), g.Expr("str", 0))
+				case 2:
+					return fmt.Sprintf("(%s == %s)", g.Expr("bool", depth-1), g.Expr("bool", depth-1))
+				default:
+					return fmt.Sprintf("(%s < %s)", g.Expr("float", depth-1), g.Expr("float", depth-1))
+				}
+			}
 			return fmt.Sprintf("(%s != %s)", g.Expr("int", depth-1), g.Expr("int", depth-1))
 		}
 	case "float":
 		if depth <= 0 || r.Chance(50) {
 			return fmt.Sprintf("%d.%d", r.Range(0, 9), r.Range(0, 99))
+		}
+		if g.AllFuncs && r.Chance(60) {
+			e := g.Expr("float", depth-1)
+			switch r.Intn(6) {
+			case 0:
+				return e + ".abs()"
+			case 1:
+				return e + ".ceil()"
+			case 2:
+				return e + ".floor()"
+			case 3:
+				return e + ".round()"
+			case 4:
+				return fmt.Sprintf("%s.float()", g.Expr("int", depth-1))
+			default:
+				return fmt.Sprintf("(%s * %s)", e, g.Expr("float", depth-1))
+			}
 		}
 		return fmt.Sprintf("(%s + %s)", g.Expr("float", depth-1), g.Expr("float", depth-1))
 	case "arr_int":
@@ -288,6 +380,22 @@ func (g *Gen) Expr(typ string, depth int) string {
 			}
 			return "[" + strings.Join(parts, ", ") + "]"
 		}
+		if g.AllFuncs && r.Chance(50) {
+			e := g.Expr("arr_str", depth-1)
+			switch r.Intn(5) {
+			case 0:
+				return e + ".reverse()"
+			case 1:
+				from := r.Range(0, 2)
+				return fmt.Sprintf("%s.slice(%d, %d)", e, from, from+r.Range(0, 3))
+			case 2:
+				return fmt.Sprintf("%s.append(%s, %s)", e, g.Expr("str", 0), g.Expr("str", 0))
+			case 3:
+				return fmt.Sprintf("%s.prepend(%s)", e, g.Expr("str", 0))
+			default:
+				return fmt.Sprintf("%s.split()", g.Expr("str", depth-1))
+			}
+		}
 		return fmt.Sprintf("%s.split(%s)", g.Expr("str", depth-1), g.lit(" "))
 	case "obj":
 		return g.ObjLit(depth)
@@ -295,6 +403,29 @@ func (g *Gen) Expr(typ string, depth int) string {
 		return "nil"
 	}
 	return "nil"
+}
+
+// CaseVariantRead reads a property of a data object through a spelling that differs
+// from one of its keys only in case and is not itself a key ("" when there is none).
+func (g *Gen) CaseVariantRead() string {
+	var out []string
+	for _, v := range g.byType("obj") {
+		have := map[string]bool{}
+		for _, k := range v.keys {
+			have[k.name] = true
+		}
+		for _, k := range v.keys {
+			for _, c := range []string{strings.ToLower(k.name), strings.ToUpper(k.name), strings.ToUpper(k.name[:1]) + strings.ToLower(k.name[1:])} {
+				if !have[c] {
+					out = append(out, "{{ "+v.name+"."+c+" }}")
+				}
+			}
+		}
+	}
+	if len(out) == 0 {
+		return ""
+	}
+	return Pick(g.R, out)
 }
 
 func (g *Gen) objWithKey(typ string) string {
@@ -444,8 +575,14 @@ func (g *Gen) Stmt(depth int) string {
 		s := "@if(" + g.Expr("bool", 2) + ")" + g.Stmts(r.Range(1, 2), depth-1)
 		g.vars = g.vars[:save]
 		if r.Chance(30) {
-			s += "@elseif(" + g.Expr("bool", 1) + ")" + g.Stmts(1, depth-1)
-			g.vars = g.vars[:save]
+			ne := 1
+			if r.Chance(40) {
+				ne = r.Range(2, 7)
+			}
+			for k := 0; k < ne; k++ {
+				s += "@elseif(" + g.Expr("bool", 1) + ")" + g.Stmts(1, depth-1)
+				g.vars = g.vars[:save]
+			}
 		}
 		if r.Chance(50) {
 			s += "@else" + g.Stmts(1, depth-1)
@@ -467,6 +604,8 @@ func (g *Gen) Stmt(depth int) string {
 		}
 		if r.Chance(15) {
 			body += "@breakIf(loop.index == 1)"
+		} else if r.Chance(15) {
+			body = "@continueIf(loop.first)" + body
 		}
 		g.InLoop--
 		g.vars = g.vars[:save]
